@@ -2,7 +2,7 @@
 from props import common
 
 FUNCS = ["pce500.keyboard_matrix:KeyboardMatrix._update_key_state", "press_key", "release_key", "inject_event", "release_all_keys",
-         "_enqueue_event", "pop_fifo", "fifo_snapshot", "_active_columns", "_compute_kil (for-each rule over the key table)", "read_kil", "peek_kil", "write_kol", "write_koh", "load_state (KOL/KOH masks)", "get_active_columns", "scan_tick",
+         "scan_tick (event collection / enqueue loop for bursts of 0..13 events in one tick, automaton step cut)", "_enqueue_event", "pop_fifo", "fifo_snapshot", "_active_columns", "_compute_kil (for-each rule over the key table)", "read_kil", "peek_kil", "write_kol", "write_koh", "load_state (KOL/KOH masks)", "get_active_columns", "scan_tick",
          "MatrixEvent.to_byte", "pce500.emulator:PCE500Emulator._tick_timers (KEYI gating)"]
 KEYSETS = [["KEY_A", "KEY_D", "KEY_ENTER"], ["KEY_Q", "KEY_E", "KEY_F1"], ["KEY_TRIANGLE_UP_DOWN", "KEY_P", "KEY_W"]]
 
@@ -16,6 +16,8 @@ def run(prop, tier):
     fifo = [dict(head=h, tail=t, release=(h + t) % 2 == 1, repeat=(h + t) % 3 == 0) for h in range(8) for t in range(8)]
     reps += common.run_units("contracts.keys:unit_fifo", fifo, budget=300)
     reps += common.run_units("contracts.keys:unit_scan", [dict(key=k, strobed=s) for k in ("KEY_A", "KEY_ENTER", "KEY_F1") for s in (True, False)], budget=300)
+    burst = [dict(n=n, head=h, tail=t, release=(n + h) % 2 == 1) for n in (0, 1, 2, 6, 7, 8, 9, 13) for (h, t) in ((0, 0), (5, 2), (7, 6), (3, 3))]
+    reps += common.run_units("contracts.keys:unit_scan_burst", burst, budget=300)
     reps += common.run_units("contracts.keys:unit_keyi", [dict(events=e, kb_irq=k) for e in (0, 1, 3) for k in (True, False)], budget=300)
     # row computation: _active_columns under its own contract (complete case split on the KOL high nibble), register
     # invariant, and _compute_kil/read_kil/peek_kil with every key in an arbitrary state by the for-each rule
